@@ -4,6 +4,7 @@ import json
 import os
 import random
 import re
+import shutil
 import time
 import vf
 from checks import dense_common as dc
@@ -351,6 +352,9 @@ def main(tier):
                             unknown.append(slim(d, part, cname + "/round2"))
                     for c in crashes2:
                         unknown.append({"kind": "crash", "part": part, "class": cname + "/round2", **c})
+                if not unknown:
+                    shutil.rmtree(work, ignore_errors=True)
+                    shutil.rmtree(work + "_r2", ignore_errors=True)
                 beh = sum(s["behaviours"] for s in summ.values()) + sum(s["behaviours"] for s in summ2.values())
                 total_beh += beh
                 cfg_names |= set(summ)
